@@ -136,6 +136,15 @@ CLAIMS = {
                 'a step runs boundary check, tree update, gravity data, forces, part2, boundary check, tree update, collision search in that order; tree.c component triples are isomorphic; all tree-in-use predicates agree.',
         not_decided='tree shape invariants under incremental updates (each particle in exactly one leaf whose cell contains it) and equality of cell sums with their contents - needs shape analysis, out of reach',
         design_ref='3/C15'),
+    'C16': dict(
+        module='c16', level='proof',
+        technique='computer algebra on loop-free code: each derivative constructor translated from the clang AST to sympy and compared with the symbolic derivative of the repository\'s own element->Cartesian map',
+        decided='all 65 element-derivative constructors (12 first order, 53 second order) x 7 components equal the symbolic first / mixed second derivative of reb_particle_from_orbit_err '
+                '(classical elements) or reb_particle_from_pal (Pal elements, with (p,q) as implicit functions of (lambda,k,h)); each obligation is discharged by exact cancellation or by a 40-digit zero test of the '
+                'residual at random points (recorded which); every constructor declared is defined and every name Python synthesises from variationtypes exists; automatic rescaling divides all six coordinates '
+                'and advances lrescale by log(scale); the IAS15 loops that save/predict/restore coordinates cover all N integrated particles including variational ones.',
+        not_decided='evolution of variational particles vs finite differences, MEGNO/Lyapunov limits, WHFast tangent map, variational pair kernels (runtime / not built)',
+        design_ref='3/C16'),
     'C17': dict(
         module='c17', level='other',
         technique='who-reads-what over the differ and reader (clang AST + record layouts + descriptor table): pointer-blind compare, ignore-set exactness, accumulation form, allocation discipline',
